@@ -999,3 +999,16 @@ Section Build.
     | o => o
     end.
 End Build.
+
+(* nesting follows the context table (every child allowed in its parent, every root allowed at
+   the root) and the MACROs are gone: what the directive layer hands to the catalog builder *)
+Fixpoint placed (fuel : nat) (parent : option N) (d : dir) : bool :=
+  match fuel with
+  | O => false
+  | S fuel' =>
+      negb (N.eqb (d_kind d) DirectiveTables.dir_Macro) &&
+      (match parent with
+       | None => is_allowed_for_root (d_kind d)
+       | Some p => is_allowed_in p (d_kind d)
+       end) && forallb (placed fuel' (Some (d_kind d))) (d_children d)
+  end.
